@@ -565,7 +565,8 @@ Input(s, e) ==      \* an environment input, delivered as an I/O callback
     [] e.op = "eg_set"    -> [s0 EXCEPT !.eg.values[e.ev] = e.val]
     [] e.op = "eg_notify" -> EgNotify(s0, e.evs)
     \* a bare TimedStore driven through its public methods (C09)
-    [] e.op = "ts_refresh"  -> TSRefresh(s0, "ts", e.a, e.key, e.ttl)
+    [] e.op = "ts_refresh"  -> IF "nak" \in DOMAIN e /\ e.nak /\ ~Has(s0, "ts", e.a, e.key) THEN s0      \* callback_new refuses: no trace
+                               ELSE TSRefresh(s0, "ts", e.a, e.key, e.ttl)
     [] e.op = "ts_stop"     -> TSStop(s0, "ts", e.a, e.key)
     [] e.op = "ts_stopaddr" -> TSStopAddr(s0, "ts", e.a)
     [] e.op = "ts_stopall"  -> TSStopAll(s0, "ts")
